@@ -1,1 +1,33 @@
-pub fn hello() {}
+//! lruverif: property-based / fuzzing verification machinery for lru-mem.
+
+pub mod alloc;
+pub mod engines;
+pub mod exec;
+pub mod exec2;
+pub mod gen;
+pub mod hashers;
+pub mod interp;
+pub mod model;
+pub mod ops;
+pub mod runner;
+pub mod steps;
+pub mod tracked;
+
+use std::sync::atomic::{AtomicBool, Ordering};
+
+static ALLOC_INSTALLED: AtomicBool = AtomicBool::new(false);
+
+/// Binaries that install `alloc::VAlloc` as the global allocator call this
+/// once at start-up; allocator-refusal injection is only used then.
+pub fn detect_alloc() {
+    let before = alloc::allocs();
+    let v: Vec<u8> = Vec::with_capacity(64);
+    std::hint::black_box(&v);
+    let after = alloc::allocs();
+    drop(v);
+    ALLOC_INSTALLED.store(after > before, Ordering::SeqCst);
+}
+
+pub fn alloc_installed() -> bool {
+    ALLOC_INSTALLED.load(Ordering::SeqCst)
+}
